@@ -2,6 +2,7 @@
    Every site the scanner finds in a function reachable from block execution must appear here with the
    reason why it cannot change the block outcome (state root, receipts, evicted list) — or with the
    finding it is. A new map range / goroutine / clock read in the execution path, a changed operand,
+   a write to a long-lived object (process-local memo state: "singleton-write"),
    or a removed sort after a keys-only range is a site that is not in this table: the obligation
    [uncovered inventory = []] (Props.v for the checked-in snapshot, cases_gen.v for the sources under
    test on every run) then fails. *)
@@ -39,6 +40,10 @@ Definition covered_with_reason : list (site * string) := [
    "each dirty account writes its own leaf of the account trie (Proofs.write_leaves_order_indep); order matters only for which database error is reported first");
   (S "src/storage/account/accountdb.go" "AccountDB.Finalise" "map-range" "adb.accountObjectsDirty : map[common.Address]struct{}",
    "each dirty account updates or deletes its own leaf of the account trie (Proofs.write_leaves_order_indep)");
+  (S "src/storage/account/accountdatasource.go" "storageDB.ContractCode" "singleton-write" "account.storageDB : call db.codeCache.Set",
+   "process-local cache keyed by the FULL content: key = code hash, value = the code with that hash read from the node store; a hit returns what the store would return");
+  (S "src/storage/account/accountdatasource.go" "storageDB.ContractCode" "singleton-write" "account.storageDB : call db.codeSizeCache.Add",
+   "process-local cache keyed by the FULL content: key = code hash, value = length of the code with that hash");
   (S "src/storage/account/accountdb_eth.go" "AccountDB.loadContractCache" "global-write" "account.rpgContractAddress via rpgContractAddress",
    "write-once cache of the native token binding, a value fixed at genesis (AddERC20Binding refuses to overwrite an existing binding)")
 ].
